@@ -30,4 +30,5 @@ Definition c07_harvest (s : str) : list str := dedup (extract_type_names s).
 Definition c07_ts_names (s : str) : list str := dedup (ts_of s).
 
 Extraction Language OCaml.
-Extraction "tt_c07.ml" c07_eval c07_harvest c07_ts_names.
+Definition c07_field_skip (attrs : list str) : bool := field_skip attrs.
+Extraction "tt_c07.ml" c07_eval c07_harvest c07_ts_names c07_field_skip.
